@@ -50,6 +50,8 @@ NOTES = {
  "C26b": "round 2; first missed; rule C26 R8 (no narrowing cast of a char in the CMap builder; UTF-16 by encode_utf16) added",
  "C27b": "round 2; first missed; rule C27 R6 (add_range inserts on every path) added",
  "C29b": "round 2; caught by C29 R2 as first written (ObjectCache::get holds the write lock for the whole operation)",
+ "C21b": "round 2; caught by the cut-set recursion rule (C21 R5 / C01 R2): the merged helper re-enters the cycle around the depth-guarded function",
+ "C30b": "round 2; first missed; rule C30 R3 (registered fonts are set into the page /Font dictionary unconditionally) added",
  "C22b": "round 2; first missed; rule C22 R6 (shared atomic counters are updated by one read-modify-write, never load-then-store) added",
  "C11b": "round 2; first missed; rule C11 R7 (fonts are installed under their resource name unconditionally) added",
 }
